@@ -64,6 +64,11 @@ func init() {
 		Real: []string{"pkg/search (AlphaBeta, Quiescence, Leaf, exploration)", "pkg/eval (Score)", "pkg/board"}, Stub: []string{"leaf evaluator and exploration predicates are harness-supplied position-determined functions, applied identically to the real search and to M-search (verif/sim/msearch)"},
 		Assumptions: []string{"reference = verif/sim/msearch on verif/sim/rules; repo's own Minimax is not the oracle", "value at a root that is already drawn is not judged (sentence leaves it open); over-budget reference searches are counted as inconclusive", "sampling: a clean batch is evidence, not proof"},
 		Run: sb.SearchSessionC03})
+	register(&Spec{Prop: "C11", QuickRuns: 6000, Level: "exploration",
+		Rule: "one run = a game history, one real table of tape-drawn size (2..65536 slots, optionally behind the min-depth-1 write filter) wrapped in a recording table, then 1..4 rounds of iterative deepening 1..d with the game advancing 1..2 plies between rounds and an occasional halted search in between; judged per search: root score vs the same search without table, PV first move's no-table value, every (sampled) exact store vs the no-table value of the forked position at that depth, every hit vs the last store let through. Non-trivial = at least 2 judged searches and at least one table hit; distinct = hash of the decoded trace",
+		Real: []string{"pkg/search (AlphaBeta, Quiescence, table, WriteLimited)", "pkg/board"}, Stub: []string{"recording wrapper around the real table; harness-supplied position-determined evaluator and exploration"},
+		Assumptions: []string{"differential baseline: the repo's own AlphaBeta with NoTranspositionTable", "sessions are excluded from the first search in which a repetition/fifty-move draw could arise inside the tree (sufficient condition: all game positions distinct, depth <= 5, clock+depth < 100)", "exact stores are sampled (every 1st..3rd) in the quick tier"},
+		Run: sb.SearchSessionC11})
 }
 
 // SelfTest validates the harness' own oracles; an error is harness trouble (exit 2).
